@@ -55,7 +55,19 @@ CLAIMS = {
         "note": "Same trusted base as C02. The grammar alphabet is computed from the pom combinator tree extracted from util.rs; map closures are assumed to rearrange characters only (their literals are checked).",
         "technique": "MIR sink census + grammar output-alphabet computation (interval sets) + constructor who-may-call census",
     },
+    "C16": {
+        "text": "Structural decision of the legend/tag plumbing: rule template decoded from MIR instantiates to `.svgbob .NAME{ DECL }`, one rule per entry in entry order joined by newlines; the drawing receives only input[..legend_start] exactly when the legend parses and the parsed entries become the styles; identifier/tag/entry grammars (extracted pom combinators, PEG-faithful interpreter) accept and reject the statement's witnesses; tags are tried deepest-first (dominance), extend the class list instead of being kept as text.",
+        "design_ref": "DESIGN.md section 4 C16",
+        "note": "Does not decide geometric enclosure (can_fit float test) nor which text fragments are merged before tag recognition.",
+        "technique": "MIR expression patterns + dominators/control dependence + grammar witness interpretation",
+    },
+    "C17": {
+        "text": "Structural decision of line-ending / trailing-blank insensitivity: rows come from str::lines on the whole input; a cell is inserted only under !is_whitespace of the inserted character; the cell buffer cannot carry a row count; the legend parser input is CR-filtered (closure predicate read from MIR) or else the grammar accepts CRLF witnesses identically, and 192 witness legends with blanks before line ends parse to the canonical entries on the extracted grammar.",
+        "design_ref": "DESIGN.md section 4 C17",
+        "note": "Witness documents are a finite sample for the grammar clause (necessary condition); the drawing clause is by construction (str::lines + whitespace guard). Genuine defect repaired by fix: commit cc9a377.",
+        "technique": "MIR control dependence + grammar interpretation of witness documents + ADT field census",
+    },
 }
 
 NOT_APPLICABLE = {p: _PENDING for p in
-                  ["C01", "C03", "C04", "C05", "C06", "C09", "C10", "C12", "C13", "C14", "C15", "C16", "C17", "C19", "C20"]}
+                  ["C01", "C03", "C04", "C05", "C06", "C09", "C10", "C12", "C13", "C14", "C15", "C19", "C20"]}
